@@ -619,7 +619,7 @@ def check_with_commit(ctx):
 def check_helpers(ctx):
     """the single-operation helpers of OptimisticTxKeyspace are transactions of their own: they must go through write_tx + commit (oracle), never write to the
     inner keyspace directly - otherwise an open transaction that read the key is not invalidated by them"""
-    for m in ('insert', 'remove', 'remove_weak', 'fetch_update', 'update_fetch'):
+    for m in ('insert', 'remove', 'remove_weak', 'fetch_update', 'update_fetch', 'take'):
         pat = r'^optimistic::keyspace::<impl>::' + m + '$'
         ob = ctx.ob(f'helpers/through-oracle-{m}', f'OptimisticTxKeyspace::{m}: the write is made inside a write transaction obtained from write_tx() and committed through WriteTransaction::commit; no direct write to the inner keyspace', [pat])
         try:
@@ -638,7 +638,7 @@ def check_helpers(ctx):
             eff = [e for e in p.events if e.kind in ('T_INSERT', 'T_REMOVE', 'T_REMOVE_WEAK', 'J_APPEND')]
             wt = [c for c in calls if c.endswith('write_tx')]
             cm = [c for c in calls if c.endswith('::commit')]
-            txw = [c for c in calls if c.endswith(('WriteTransaction::' + m, 'write_tx::<impl>::' + m))]
+            txw = [c for c in calls if c.endswith(tuple(x + t for x in ('WriteTransaction::', 'write_tx::<impl>::') for t in ((m, 'fetch_update') if m == 'take' else (m,))))]
             if direct or eff:
                 bad.append((p, f'writes to the inner keyspace directly ({(direct or [eff[0].kind])[0]}): the commit is not registered with the oracle, so a concurrent transaction that read the key is not refused')); continue
             if not wt or not cm or not txw:
